@@ -60,6 +60,12 @@ def classify(run, bad):
         if bad["result"] == "runaway":
             dead = [t for t in tries if not re.match(r"^[^:]*(:\d+)?$", t)]
             return "attempt:never-ends" + (":unparsable-backend" if dead else "")
+        if run[0].get("strategy") == "round-robin" and bad["result"] == "open" and len(set(canon(t) for t in tries)) == len(tries):
+            sel = [canon(s(r["tries"][-1])) for r in run if r.get("ev") in ("attempt", "abort") and r.get("tries")
+                   and r.get("seq", 0) <= bad.get("seq", 0) and (r["ev"] == "abort" or r.get("result") == "open")]
+            ups = {s(u) for u in run[0].get("up", [])} & {canon(s(b)) for b in run[0].get("list", [])}
+            if len(sel) >= 6 and ups - set(sel[-6:]):
+                return "attempt:round-robin:accepting-backend-starved"
         cs = [canon(t) for t in tries]
         if len(set(cs)) < len(cs):
             if len(set(tries)) < len(tries):
@@ -89,6 +95,13 @@ def run(ctx):
     if nv.violated not in ("LoopOK", "TriesOnce"):
         raise vlib.ToolError("drop-first variant does not violate the rules (%s)" % nv.violated)
     ctx.log("drop-first variant violates %s (non-vacuity ok)" % nv.violated)
+    r = ctx.tlc("LiteRR")
+    mc += r.distinct
+    nv = ctx.tlc("LiteRR", "LiteRR_wrap.cfg", allow_violation=True, count=False)
+    if nv.violated != "RRFair":
+        raise vlib.ToolError("round-robin index wrapped by the shrunken list does not violate RRFair (%s)" % nv.violated)
+    ctx.log("LiteRR.tla: %d states, no accepting backend starved by the rotation; wrapped-index variant "
+            "violates RRFair (non-vacuity ok)" % r.distinct)
     r = ctx.tlc("LiteCount")
     mc += r.distinct
     ctx.log("LiteCount.tla: %d states, reads within bounds, zero at the end" % r.distinct)
@@ -159,6 +172,7 @@ def run(ctx):
         "lists_with_same_backend_twice": st["lists_with_same_backend_twice"],
         "runaway_attempts": st["runaway_attempts"],
         "backend_reset_after_accept": st["backend_reset_after_accept"],
+        "round_robin_run_attempts": st["round_robin_run_attempts"],
         "concurrent_batches": st["concurrent_batches"],
         "concurrent_connections": st["concurrent_connections"],
         "count_schedules_forced": st["count_schedules"],
